@@ -23,14 +23,6 @@ Fixpoint list_eqb (a b : list N) : bool :=
   | _, _ => false
   end.
 
-(* specification of the retained store: last non-empty retained publish per topic *)
-Definition abs_ret_step (m : list (list lvl * msg)) (o : op) : list (list lvl * msg) :=
-  match o with
-  | ORetain t mg e =>
-      let m' := filter (fun x => negb (path_eqb (fst x) (split t))) m in
-      if e then m' else (split t, mg) :: m'
-  | _ => m
-  end.
 (* what is observed of a retained message: its payload tag and its QoS *)
 Definition rkey (m : msg) : N := m_tag m * 4 + m_qos m.
 Definition spec_retained (m : list (list lvl * msg)) (f : list lvl) : list N :=
